@@ -1676,7 +1676,10 @@ class rx:
         self._dirty = False
         if self._method:
             # E.g. `pi = dfi.A` leads to `pi._method` equal to `'A'`.
-            current = getattr(current, self._method, current)
+            # (no fallback: when the current value has no such attribute the
+            # access fails as it does in plain Python, instead of silently
+            # yielding the value itself)
+            current = getattr(current, self._method)
         if hasattr(current, '__call__'):
             self.__call__.__func__.__doc__ = self.__call__.__doc__
         return current
